@@ -21,7 +21,7 @@ from concurrent.futures import ThreadPoolExecutor
 REPO = os.environ.get("WV_REPO", "/repo")
 CACHE = os.environ.get("WV_CACHE", "/var/tmp/wv-cache")
 PY = os.environ.get("WV_PYTHON", "/venv/bin/python")
-KEEP_BUILDS = 6
+KEEP_BUILDS = 24
 
 SAN_FLAGS = [
     "-O1",
